@@ -16,6 +16,7 @@ mod c08;
 mod c09;
 mod c10;
 mod c11;
+mod c12;
 mod c13;
 mod c14;
 use std::io::Write;
@@ -30,6 +31,7 @@ struct Ctx {
     c08: Option<c08::StoreCtx>,
     c19: Option<c19::C19Ctx>,
     c13: Option<c13::HCtx>,
+    c12: Option<c12::C12Ctx>,
 }
 
 fn exec_line(ctx: &mut Ctx, line: &str) -> String {
@@ -88,6 +90,16 @@ fn exec_line(ctx: &mut Ctx, line: &str) -> String {
         "c10" => c10::exec(line),
         "c11" => c11::exec(line),
         "c14" => c14::exec(line),
+        "c12" => {
+            let (v, m) = parse_line(line);
+            if second == "cfg" {
+                ctx.c12 = None;
+                match util::guarded_res(|| c12::open_cfg(&m)) { Ok(c) => { ctx.c12 = Some(c); "ok".into() } Err(e) => { if std::env::var("VERIF_ERR_MSG").is_ok() { eprintln!("ERR: {}", e); } "err-open".into() } }
+            } else {
+                let verb = v.get(2).cloned().unwrap_or_default();
+                match ctx.c12.as_mut() { Some(c) => c12::exec_op(c, &verb, &m), None => "skip".into() }
+            }
+        }
         "c13" => {
             let (v, m) = parse_line(line);
             if second == "cfg" { ctx.c13 = None; ctx.c13 = Some(c13::open_cfg(&m)); "ok".into() }
@@ -128,6 +140,7 @@ fn main() {
                 "c11" => c11::generate(&a.tier, a.seed),
                 "c14" => c14::generate(&a.tier, a.seed),
                 "c13" => c13::generate(&a.tier, a.seed),
+                "c12" => c12::generate(&a.tier, a.seed),
                 _ => { eprintln!("unknown property {}", prop); std::process::exit(2) }
             }
         }
